@@ -119,6 +119,10 @@ func (x *Exec) callFn(callee *ssa.Function, bind []Value, args []Value, st *Stat
 	}
 	if x.inSpec == 0 {
 		x.inlined++
+		if x.inlinedFns == nil {
+			x.inlinedFns = map[string]bool{}
+		}
+		x.inlinedFns[fnKey(callee)] = true
 	}
 	rv, rst := x.runBound(callee, bind, args, st, pc)
 	st.h = rst.h
@@ -444,7 +448,13 @@ func (x *Exec) stub(callee *ssa.Function, args []Value, st *State, pc *Term) (Va
 	fn := fullName(callee)
 	switch fn {
 	case "math/bits.OnesCount8", "math/bits.OnesCount16":
-		x.usedStub(fn)
+		if x.realStdlib[fn] {
+			// the obligation "this model equals the real function" executes the real body
+			rv, rst := x.run(callee, args, &State{h: st.h, facts: st.facts}, pc)
+			st.h = rst.h
+			return rv, true
+		}
+		x.usedModel(fn)
 		t := args[0].(*Term)
 		sum := b.Const(64, 0)
 		for k := 0; k < t.S.W; k++ {
@@ -666,6 +676,15 @@ func (ld *Loaded) logOnly1(fn *ssa.Function) bool {
 		return false
 	}
 	return logs
+}
+
+// usedModel: an external function represented by a model that is itself an
+// obligation (proved equal to the real body), not an assumption.
+func (x *Exec) usedModel(name string) {
+	if x.modelsUsed == nil {
+		x.modelsUsed = map[string]bool{}
+	}
+	x.modelsUsed[name] = true
 }
 
 func (x *Exec) usedStub(name string) {
